@@ -91,6 +91,7 @@ def c01(out, tier, rng):
     ss = enumerated_sessions(out, tier, rng, parse_back=False)
     ss += pool_sessions(rng, tier, k=3, feedback=True, parse_back=True)
     ss += molfile_order_sessions(rng, tier)
+    ss += hash_twin_sessions(rng, tier)
     ss.append(pipeline_session("solvent-box", gen.solvent_box(rng), rng, k=1 if tier == "quick" else 5, parse_back=False, unordered=True))
     count_sessions(out, ss, "c01")
     validate_sessions(out, ss, "C01:")
@@ -109,20 +110,29 @@ def molfile_order_sessions(rng, tier, parse_back=False, n_quick=40):
             for a in M["atoms"]:            # many radical centres on different elements
                 if rng.random() < 0.7:
                     a["rad"] = 2
+        big = i % 20 == 7
+        if big:
+            # more than 99 atoms in fixed columns: bond lines whose two three-column atom numbers touch ("  1101", " 99100")
+            n_at = rng.randint(101, 118)
+            pool = [dict(a, x="0", y="1.5", z="0") for a in M["atoms"]] or [dict(sym="C", chg=0, rad=0, mass=0, x="0", y="0", z="0")]
+            M = {"atoms": [dict(rng.choice(pool)) for _ in range(n_at)], "bonds": [(j, j + 1, 1) for j in range(n_at - 1)] + [(j, j + 5, 2) for j in range(0, n_at - 5, 17)]}
+            for a in M["atoms"]:
+                if a["rad"] not in (0, 2):
+                    a["rad"] = 2
         nat = len(M["atoms"])
         S = Session(f"molfile-order-{i}")
-        ids, perms = [], []
-        v2 = rng.random() < 0.4 and textgen.fits_v2000(M) and all(a["rad"] in (0, 2) or True for a in M["atoms"])
+        ids, perms, rids = [], [], []
+        v2 = (big or rng.random() < 0.4) and textgen.fits_v2000(M) and all(a["rad"] in (0, 2) or True for a in M["atoms"])
         for v in range(3):
             perm = gen.random_perm(rng, nat)
-            if v2:
+            if v2 and not (big and v == 0):          # the big molecule: one V3000 listing next to two fixed-column ones
                 # V2000 listings: many radical / charge / isotope entries spread over several property lines
                 lines, _ = textgen.render_v2000(M, rng, perm=perm, opts={"group": rng.choice([1, 2, 3, 8]), "mode": rng.choice(["lines", "stale"])})
                 ids.append(S.read(lines, "V2000", "C08", floats=textgen.floats_of(M)))
             else:
                 lines, _ = textgen.render_v3000(M, rng, perm=perm, opts={"indices": rng.choice(["shuffled", "gappy", "identity"])})
                 ids.append(S.read(lines, "V3000", "C07", floats=textgen.floats_of(M)))
-            perms.append(perm)
+            perms.append(perm); rids.append(S.last_read)
         for x in ids:
             if x:
                 c = S.canon(x)
@@ -136,8 +146,8 @@ def molfile_order_sessions(rng, tier, parse_back=False, n_quick=40):
                                 S.ser(c2)
         inv0 = {perms[0][k]: k for k in range(nat)}
         for j in (1, 2):
-            if ids[0] and ids[j]:
-                S.sametext(ids[0], ids[j], [perms[j][inv0[p]] for p in range(nat)], "C01", strict=True)
+            # stated for the texts, whatever the reader made of them (a listing it rejects while it reads another is reported too)
+            S.sametext(rids[0], rids[j], [perms[j][inv0[p]] for p in range(nat)], "C01", strict=True)
         ss.append(S)
     return ss
 
@@ -390,6 +400,7 @@ def c02(out, tier, rng):
     ss += nearmiss_sessions(rng, tier)
     ss += mutate_sessions(rng, tier)
     ss += text_nearmiss_sessions(rng, tier)
+    ss += hash_twin_sessions(rng, tier)
     # CFI twins: same size, same degrees, indistinguishable by refinement, not isomorphic
     cfi = gen.cfi_graphs(80 if tier == "quick" else 220)
     S = Session("cfi-twins")
@@ -427,6 +438,7 @@ def c03(out, tier, rng):
     ss += reader_fed_sessions(rng, tier, parse_back=True)
     ss += parser_fed_sessions(rng, tier)
     ss += moved_bond_sessions(rng, tier)
+    ss += rebuilt_sessions(rng, tier, n=20, parse_back=True)
     count_sessions(out, ss, "c03")
     validate_sessions(out, ss, "C03:")
     out.extra["rule"] = RULE
@@ -488,6 +500,26 @@ def stale_partition_sessions(rng, tier, n=25):
             if r:
                 S.ser(r)
         ss.append(S)
+    return ss
+
+
+def hash_twin_sessions(rng, tier):
+    """two different molecules whose data hash alike, through the pipeline one after the other in one process (both orders)"""
+    ss = []
+    tw = gen.hash_twins()
+    for name, a, b in (tw if tier == "thorough" else rng.sample(tw, 8)):
+        for order in ("ab", "ba"):
+            S = Session(f"{name}-{order}")
+            for g in ((a, b) if order == "ab" else (b, a)):
+                o = S.input(copy.deepcopy(g))
+                c = S.canon(o)
+                if c:
+                    S.ser(c)
+                p = gen.random_perm(rng, g.number_of_nodes())
+                c2 = S.canon(S.derive(o, relabel(S.objs[o], p, rng), p))
+                if c2:
+                    S.ser(c2)
+            ss.append(S)
     return ss
 
 
@@ -554,7 +586,7 @@ def record_keys():
     return {"element_symbol", "atomic_number", "chg", "mass", "rad", "x_coord", "y_coord", "z_coord", "invariant_code", "partition", record.TAG}
 
 
-def rebuilt_sessions(rng, tier, n=25):
+def rebuilt_sessions(rng, tier, n=25, parse_back=False):
     """molecules built with graph_from_molecule from attribute dictionaries taken over from another graph's atoms (derived entries
     included) after the user changed an element, an isotope or a radical: the result is the molecule the dictionaries now state"""
     from tucan.graph_utils import graph_from_molecule
@@ -599,7 +631,13 @@ def rebuilt_sessions(rng, tier, n=25):
         for x in descs:
             c = S.canon(x)
             if c:
-                S.ser(c)
+                t = S.ser(c)
+                if t and parse_back:
+                    p = S.parse(t, of=c)
+                    if p:
+                        c2 = S.canon(p)
+                        if c2:
+                            S.ser(c2)
         ss.append(S)
     return ss
 
@@ -614,6 +652,7 @@ def c04(out, tier, rng):
     ss += stale_partition_sessions(rng, tier)
     ss += library_refined_sessions(rng, tier, raw_ser=False)
     ss += rebuilt_sessions(rng, tier)
+    ss += hash_twin_sessions(rng, tier)
     S = Session("solvent-box")
     o = S.input(gen.solvent_box(rng))
     for x in [o] + [S.derive(o, reorder_nodes(relabel(S.objs[o], p, rng), rng), p) for p in [gen.random_perm(rng, S.objs[o].number_of_nodes()) for _ in range(2 if tier == "quick" else 6)]]:
@@ -674,10 +713,41 @@ def c05(out, tier, rng):
     ss += reader_fed_sessions(rng, tier)
     ss += parser_fed_sessions(rng, tier)
     ss += mutate_sessions(rng, tier, n=12)          # the string must describe the molecule as it stands when the pipeline is called
+    ss += other_calls_first_sessions(rng, tier)
     count_sessions(out, ss, "c05")
     validate_sessions(out, ss, "C05:", rl=0)
     out.extra["rule"] = RULE + "; C05 judges every emitted string with the specification's character-level recognizer and layout rules"
     out.assumptions += ["the validator is spec/Grammar.tla + Tucan!LayoutClauses, written from tucan.ebnf; it shares no code with the library or ANTLR"]
+
+
+def other_calls_first_sessions(rng, tier, n=25):
+    """the object goes through other public calls (molfile writer, permutation helper, an earlier pipeline run, a serialization as it
+    is) before the pipeline is run on it: the string must describe the molecule all the same"""
+    ss = []
+    pool = drivers.special_molecules()
+    pool = rng.sample(pool, min(len(pool), 10 if tier == "quick" else len(pool)))
+    pool += [(f"first{i}", gen.random_molecule(rng, 8, label_p=0.3)) for i in range(n if tier == "quick" else n * 8)]
+    for name, g in pool:
+        S = Session("callsfirst-" + name)
+        o = S.input(g)
+        for call in rng.sample(["write", "permute", "pipeline", "serraw"], rng.randint(1, 3)):
+            if call == "write":
+                S.write(o)
+            elif call == "permute":
+                S.permute(o, rng.choice([0.0, 0.25, 0.5, 0.999]))
+            elif call == "serraw":
+                S.ser(o, raw=True)
+            else:
+                c = S.canon(o)
+                if c:
+                    S.ser(c)
+        c = S.canon(o)
+        if c:
+            t = S.ser(c)
+            if t:
+                S.parse(t, of=c)
+        ss.append(S)
+    return ss
 
 
 def parser_fed_sessions(rng, tier):
@@ -808,6 +878,11 @@ def c12(out, tier, rng):
     ss += mutate_sessions(rng, tier, n=20)
     ss += history_sessions(rng, tier)
     ss += stale_code_sessions(rng, tier)
+    with record.debug_logging():         # the same calls inside an application that logs at DEBUG level
+        dbg = pool_sessions(rng, tier, k=2, feedback=True, repeat=True, parse_back=False, n_random=15, corpus_n=4, specials=False)
+    for S in dbg:
+        S.id = "dbglog-" + S.id
+    ss += dbg
     # design level: every call history (canonicalize / serialize / parse / relabel / edit in place, in any order) on small molecules
     for start in ((1, 3) if tier == "quick" else (1, 2, 3, 4)):
         out.design("MC_Calls", f"SPECIFICATION CSpec\nCONSTANTS RLimit = 99 BFLimit = 6 MaxLen = {5 if tier == 'quick' else 6} MaxObjs = {6 if tier == 'quick' else 7} Start = {start}\n"
@@ -959,6 +1034,7 @@ def c13(out, tier, rng):
     ss += automorphism_sessions(rng, tier)
     ss += stale_partition_sessions(rng, tier, n=15)
     ss += prepartitioned_sessions(rng, tier)
+    ss += hash_twin_sessions(rng, tier)
     # centres with 256 arms each (neighbour counts beyond one byte), and graphs rebuilt from copied atom dictionaries
     S = Session("arms256")
     o = S.input(gen.arms_hubs(256))
